@@ -3,7 +3,9 @@ package props
 // C04 - MapSeq round trip preserves order, attributes, comments and instructions.
 
 import (
+	"bytes"
 	"fmt"
+	"reflect"
 	"regexp"
 	"testing"
 
@@ -90,6 +92,13 @@ func checkC04(c CaseC04, info *Info) *Failure {
 	m, err := mxj.NewMapXmlSeq([]byte(doc))
 	if err != nil {
 		return failf("decode-error", "doc %q: %v", doc, err)
+	}
+	// the reader forms of the sequence decoder yield the same MapSeq (names keep their prefixes, whatever is declared)
+	if mr, rerr := mxj.NewMapXmlSeqReader(plainReader{bytes.NewReader([]byte(doc))}); rerr != nil || !reflect.DeepEqual(map[string]interface{}(mr), map[string]interface{}(m)) {
+		return failf("reader-form-differs", "doc %q: NewMapXmlSeqReader gives %#v (%v), NewMapXmlSeq %#v", doc, mr, rerr, m)
+	}
+	if mr, raw, rerr := mxj.NewMapXmlSeqReaderRaw(bytes.NewReader([]byte(doc))); rerr != nil || !reflect.DeepEqual(map[string]interface{}(mr), map[string]interface{}(m)) || !bytes.Contains(raw, []byte(doc)) {
+		return failf("reader-form-differs", "doc %q: NewMapXmlSeqReaderRaw gives %#v, raw %q (%v), NewMapXmlSeq %#v", doc, mr, raw, rerr, m)
 	}
 	var indented []byte
 	for _, mode := range []string{"Xml", "XmlIndent", "BeautifyXml", "Formatted"} {
